@@ -36,8 +36,8 @@ What *is* proved, for all inputs and all operator meanings:
                                    special case;
 * the refutation and the regression witnesses above, each from a concrete program that is replayed on the real
   converter (harness/corpus_c01.jsonl).
-For loops with `break` below the top level and attribute parameters the equivalence of source and emitted graph on the generated stream
-is *tested* (eager vs onnxruntime vs NumPy interpreter), not proved.
+For loops with `break` below the top level (and for literal-valued variables / attribute parameters that are re-bound under
+control flow: C01-D24) the equivalence of source and emitted graph on the generated stream is *tested* (eager vs onnxruntime vs NumPy interpreter), not proved.
 -/
 namespace OV.Props.C01
 open OV.C01
@@ -96,9 +96,12 @@ sharing the type variable) — yields outputs `vs`, the emitted graph evaluates 
 input and **every** meaning of the operators.  Two named assumptions about operators: `Constant` of a
 literal always evaluates (`hConst`), and `Identity` is the identity (`hId`; the converter copies returned
 inputs and duplicate outputs through `Identity`).
-Attribute parameters may be declared and forwarded to operators as attributes (`op.Foo(x, alpha=alpha)`: the node
-carries the reference `@alpha`, both sides read it through `S`); *reading* one as a value is outside (the plain-Python
-side of this model gives it no value, so `he` fails).
+Attribute parameters may be forwarded to operators as attributes (`op.Foo(x, alpha=alpha)`: the node carries the
+reference `@alpha`, both sides read it through `S`) and read as values (`x * alpha`): `S.attrLit alpha` is the Python
+value the function is run with — a Python scalar that has not met an operator yet, like a literal — and `hσ` says
+that `S` reads `Constant(value_float=@alpha)` (for a `bool`: followed by `Cast` to BOOL), which is what
+`_to_onnx_var` emits, as the `Constant` of that value (`AttrVal`); `ht`: a name with such a value is not assigned
+and not read as a bare right-hand side (`y = alpha`).
 `_partial`: `if` / `for` / `while` are not covered here (stages 2-4); for `while`
 with a trailing break and for literals crossing an `if` the statement is false for the code as it is (below). -/
 theorem convert_correct_partial {V : Type} (S : Sem V)
@@ -184,10 +187,14 @@ for **every** input and **every** meaning of the operators (`Constant` total, `I
 The proof is a forward simulation whose invariant relates only the *live* Python variables to ONNX values
 (`OV.C01.Inv`); it uses `liveness` pass-through, the freshness and scoping theorems of C02, and the castable
 bookkeeping of the un-executed branch.
-Attribute parameters: as in stage 1, provided no attribute parameter is re-bound anywhere in the body (`hattr`; a
-re-bound one would have to leave an `If` as a value in one branch and as an attribute in the other).
-`_partial`: loops are not covered here (see `convert_correct_for_partial`), nor tuple assignment; attribute
-parameters only as forwarded operator attributes; a bare literal may not be *assigned* (it would lose its polymorphism at the `If` boundary: C01-D24). -/
+Attribute parameters: as in stage 1 (`hσ`), provided none is assigned, read as a bare right-hand side or used as a
+loop condition anywhere in the body (`hattr`, over `targetsBlock`; a re-bound one would have to leave an `If` as a
+value in one branch and as an attribute in the other).  The condition of an `if` may be a Python value (`if flag:` on a
+`bool` attribute parameter): `hTL` — the constant of a Python value is as true as Python finds the value.  `hPy`: the
+names `S.pyVars` sets aside as holding Python scalars (see stage 4; may be empty) are not bound here.
+`_partial`: loops are not covered here (see `convert_correct_for_partial`), nor tuple assignment; a bare literal may
+not be *assigned* here (stage 4 allows it at top level; under control flow it would lose its polymorphism at the `If`
+boundary: C01-D24). -/
 theorem convert_correct_ite_partial {V : Type} (S : Sem V)
     (hConst : ∀ l, ∃ c, constOf S l = some c)
     (hId : ∀ v, S.op "" "Identity" [some v] [] = some [v])
@@ -244,8 +251,8 @@ loop-carried or recomputed in the body before anything reads it; both — the li
 fixpoint (`stableStmt`; the real analysis iterates until it does).  That a `for` variable is not read after the
 loop is not a hypothesis: such loops are refused (`loop_variable_live_after_loop_refused`); that a `while` body
 cannot see the iteration counter holds since 0fa00ae (C01-D39).
-`_partial`: no loop nested in a loop or in a branch, no tuple assignment (both: stage 4); attribute parameters only
-as forwarded operator attributes and never re-bound (`hattr`). -/
+`_partial`: no loop nested in a loop or in a branch, no tuple assignment, no literal-valued variables (all: stage 4);
+attribute parameters as in stage 2 (`hattr`, `hσ`, `hTL`, `hPy`). -/
 theorem convert_correct_for_partial {V : Type} (S : Sem V)
     (hConst : ∀ l, ∃ c, constOf S l = some c)
     (hId : ∀ v, S.op "" "Identity" [some v] [] = some [v])
@@ -345,8 +352,13 @@ Side conditions (`nestStmt`), per loop at its own live-out set: those of stage 3
 the body, `while` condition variable loop-carried or recomputed before any read, liveness fixpoint reached), and —
 listed explicitly although acceptance implies it (`loop_variable_live_after_loop_refused`) — the `for` variable
 not live after its loop.
-`_partial`: a trailing `break` only in top-level loops over `if`-fragment bodies; attribute parameters only as
-forwarded operator attributes and never re-bound (`hattr`). -/
+Variables holding Python scalars: a top-level `x = <literal>` is part of the fragment.  The invariant then asks every
+variable *except the names in `S.pyVars`* to hold a tensor (`S.pyVars` is a proof device — a list of names carried
+by `S` that nothing evaluates); `hLT` puts the literal-assigned names `litTargets f.body` into it, `hPy` and `hattr`
+say that no statement other than those top-level assignments binds such a name or an attribute parameter, or reads
+it as a bare right-hand side / loop condition (`targetsTop f.body`).  That is the complement of the open finding
+C01-D24 (a literal-valued variable re-assigned under control flow, or carried by a loop, loses its polymorphism).
+`_partial`: a trailing `break` only in top-level loops over `if`-fragment bodies. -/
 theorem convert_correct_nested_partial {V : Type} (S : Sem V)
     (hConst : ∀ l, ∃ c, constOf S l = some c)
     (hId : ∀ v, S.op "" "Identity" [some v] [] = some [v])
@@ -578,6 +590,26 @@ example : ∀ x l, S5.attrLit x = some l →
     rw [if_neg (by decide)]
     exact ⟨"value_int", rfl, rfl⟩
   · simp [S5, hx] at h
+
+/-! ### Static `if` on a name of the surroundings -/
+
+/-- **A parameter (or any local name) is never a static condition** (C01-D45, fixed by 11e898c): whatever the
+closure and the module bind, `if p:` on a parameter or on a name the function assigns keeps both branches.  Before
+the fix a module global named like the parameter decided the branch and the graph ignored the input. -/
+theorem static_if_never_on_a_local_name (nonlocals globals : List (Name × Lit)) (f : Func) (x : Name)
+    (t e : List Stmt) (hx : x ∈ resolveBound f) :
+    foldStmt (envLookup nonlocals globals) (resolveBound f) (.ite (.var x) t e)
+      = [.ite (.var x) (foldBlock (envLookup nonlocals globals) (resolveBound f) t)
+          (foldBlock (envLookup nonlocals globals) (resolveBound f) e)] := by
+  simp [foldStmt, hx]
+
+/-- … and on a name that is not local and that the surroundings bind to a constant, exactly the branch Python's
+`bool(value)` selects is kept (closure variables first: `env_lookup_closure_first`). -/
+theorem static_if_takes_the_outer_value (nonlocals globals : List (Name × Lit)) (bound : VSet) (x : Name) (l : Lit)
+    (t e : List Stmt) (hx : x ∉ bound) (hl : envLookup nonlocals globals x = some l) :
+    foldStmt (envLookup nonlocals globals) bound (.ite (.var x) t e)
+      = foldBlock (envLookup nonlocals globals) bound (if litTruth l then t else e) := by
+  cases hb : litTruth l <;> simp [foldStmt, hx, hl, hb]
 
 /-! ### `to_model_proto`: the exported model means the function at its attribute defaults -/
 
